@@ -130,6 +130,9 @@ def obligations(tier):
         small = ["none", "go-x", "inc-recur", "go-cnt"]
         out.append(Ob("diff/N3-chain-smallmenu-t2", h, dict(n=3, parent=[-1, 0, 1], items_per_frame=1, guards=False, ticks=2, menu=small),
                       budget=900, covers=["transition"], bounds=dict(frames=3, forest=[-1, 0, 1], menu=small, ticks=2, inputs="[0,1]")))
+        # a frame with two children: forced re-entry of the parent while the second child is active
+        out.append(Ob("diff/N3-fork-smallmenu-t2", h, dict(n=3, parent=[-1, 0, 0], items_per_frame=1, guards=False, ticks=2, menu=small),
+                      budget=900, covers=["transition"], bounds=dict(frames=3, forest=[-1, 0, 0], menu=small, ticks=2, inputs="[0,1]")))
     for (n, ipf, guards, ticks, shard_item0) in cfgs:
         for parent in forests[n]:
             for item0 in (range(len(MENU)) if shard_item0 else [None]):
